@@ -381,19 +381,21 @@ def _gen_eval(rng, max_stages, p_bad=0.25, calls=True):
             return h
         if calls and r < 0.45:
             n = rng.randint(0, 2)
+            fn = rng.choice(["vmod.rec", "vmod.rec", "vmod.recnone", "vmod.reclist"])
             return S.SD("call", None, [[S.key_of_py(k), node(depth - 1) if depth > 0 else S.leaf(1)] for k in rng.sample(keys, n)],
-                        fn="vmod.rec", form="tag")
+                        fn=fn, form="tag")
         if calls and r < 0.50:
             return S.SD("bind", None, [[S.key_of_py(k), node(depth - 1) if depth > 0 else S.leaf(1)] for k in rng.sample(keys, rng.randint(0, 1))],
                         fn="vmod.rec", form="tag")
         if depth > 0 and r < 0.68:
-            return S.mapping([(k, node(depth - 1)) for k in rng.sample(keys, rng.randint(0, 3))])
+            return S.mapping([(k, node(depth - 1)) for k in rng.sample(keys + [0, 1] + ([2.5] if max_stages == 1 else []), rng.randint(0, 3))])
         if depth > 0 and r < 0.80:
             return S.sequence([node(depth - 1) for _ in range(rng.randint(0, 3))])
         return S.leaf(rng.choice([1, 2, "x", None, True, 2.5, 0, ""]))
 
     doc = S.mapping([(k, node(2)) for k in rng.sample(keys, rng.randint(2, 4))])
-    paths = [p for p, _ in _paths_of_sd(doc) if p]
+    paths = [p for p, _ in _paths_of_sd(doc) if p and all(isinstance(x, (str, int)) and not isinstance(x, bool) for x in p)
+             and isinstance(p[0], str)]
     for h in holes:
         if rng.random() < p_bad or not paths:
             h["ref"] = [S.key_of_py(x) for x in rng.choice([("zz",), ("a", "zz"), ("a", 7)])]
@@ -412,7 +414,7 @@ def _gen_eval(rng, max_stages, p_bad=0.25, calls=True):
 
 
 def _gen_eval_good(rng, max_stages):
-    return _gen_eval(rng, max_stages, p_bad=0.0)
+    return _gen_eval(rng, 1, p_bad=0.0)      # single stage: float keys allowed (see finding F13)
 
 
 def _eval_nontrivial(docs):
